@@ -8,6 +8,7 @@ same block in `s ++ y`.
 -/
 import ScpiVerif.Lemmas.ChunkingDefs
 import ScpiVerif.Lemmas.ChunkingLoop
+import ScpiVerif.Lemmas.ChunkingQuote
 import ScpiVerif.Lemmas.Params
 import ScpiVerif.Props.C13
 
@@ -309,14 +310,13 @@ theorem drop_view (s y : Bytes) (i n : Nat) (hi : NLat s i) (hn : n ≤ i) :
 theorem wsLen_stable (s y : Bytes) (i : Nat) (hi : NLat s i) : wsLen (s ++ y) = wsLen s := by
   unfold wsLen; rw [(specToken_plain_stable s y i hi).1]
 
-theorem specData_stable (s y : Bytes) (i : Nat) (hi : NLat s i) (hq : NoQuotes (s ++ y))
+theorem specData_stable (s y : Bytes) (i : Nat) (hi : NLat s i) (hq : StrOK (s ++ y))
     (hsw : specData s ≠ .swallow) : specData (s ++ y) = specData s := by
   obtain ⟨hws, hchr, hdec, hsuf, hexp, hnd⟩ := specToken_plain_stable s y i hi
-  have hstr1 := specToken_string_none (s ++ y) hq
-  have hstr2 := specToken_string_none s (noQuotes_left hq)
+  have hstr := specToken_string_stable s y i hi hq
   have hne := hi.ne_nil
   unfold specData at hsw ⊢
-  simp only [hnd, hchr, hdec, hstr1, hstr2, hexp] at hsw ⊢
+  simp only [hnd, hchr, hdec, hstr, hexp] at hsw ⊢
   cases h1 : specToken .nondecimal s with
   | some e => simp only
   | none =>
@@ -333,12 +333,15 @@ theorem specData_stable (s y : Bytes) (i : Nat) (hi : NLat s i) (hq : NoQuotes (
         have hs := (specToken_plain_stable _ y _ v4).2.2.2.1
         simp only [v1, hw, v3, hs]
       | none =>
-        simp only [h1, h2, h3] at hsw ⊢
-        obtain ⟨b1, b2⟩ := specBlock_stable s y hne
-        cases h4 : specBlock s with
-        | valid h n => rw [b1 h n h4]
-        | incomplete => rw [h4] at hsw; exact absurd rfl hsw
-        | invalid => rw [b2 h4]
+        cases h5 : specToken .string s with
+        | some e => simp only
+        | none =>
+          simp only [h1, h2, h3, h5] at hsw ⊢
+          obtain ⟨b1, b2⟩ := specBlock_stable s y hne
+          cases h4 : specBlock s with
+          | valid h n => rw [b1 h n h4]
+          | incomplete => rw [h4] at hsw; exact absurd rfl hsw
+          | invalid => rw [b2 h4]
 
 /-! ## the data list -/
 
@@ -404,15 +407,15 @@ theorem specList_fuel : ∀ (f1 f2 : Nat) (s : Bytes) (off cnt : Nat), off ≤ s
       · rfl
       · rfl
 
-theorem specList_stable (w y : Bytes) (J : Nat) (hJ : NLat w J) (hq : NoQuotes (w ++ y)) :
-    ∀ (fuel off cnt : Nat), off ≤ J → endpos (specList fuel w off cnt) ≤ J →
+theorem specList_stable (w y : Bytes) (J : Nat) (hJ : NLat w J) (hq : QuotesLineLocal (w ++ y)) :
+    ∀ (fuel off cnt : Nat), off ≤ J → SepBefore w off → endpos (specList fuel w off cnt) ≤ J →
     specList fuel (w ++ y) off cnt = specList fuel w off cnt := by
   have hJl := hJ.lt
   intro fuel
   induction fuel with
-  | zero => intro off cnt _ _; rfl
+  | zero => intro off cnt _ _ _; rfl
   | succ fuel ih =>
-    intro off cnt hoff hend
+    intro off cnt hoff hsep hend
     rw [specList_succ] at hend
     rw [specList_succ, specList_succ]
     obtain ⟨v1, v2⟩ := drop_view w y J off hJ hoff
@@ -421,8 +424,16 @@ theorem specList_stable (w y : Bytes) (J : Nat) (hJ : NLat w J) (hq : NoQuotes (
     obtain ⟨v3, v4⟩ := drop_view w y J (off + wsLen (w.drop off)) hJ (by omega)
     have hsw : specData (w.drop (off + wsLen (w.drop off))) ≠ .swallow := by
       intro h; rw [h] at hend; simp only [endpos] at hend; omega
+    -- the data element starts directly after a blank or a comma
+    have hsep' : SepBefore w (off + wsLen (w.drop off)) := by
+      by_cases hw0 : 0 < wsLen (w.drop off)
+      · obtain ⟨b, hb, hs⟩ := wsLen_last hw0
+        rw [List.getElem?_drop] at hb
+        have := SepBefore.of_get hb hs
+        rwa [show off + (wsLen (w.drop off) - 1) + 1 = off + wsLen (w.drop off) by omega] at this
+      · rwa [show wsLen (w.drop off) = 0 by omega, Nat.add_zero]
     have ed : specData ((w ++ y).drop (off + wsLen (w.drop off))) = specData (w.drop (off + wsLen (w.drop off))) := by
-      rw [v3]; exact specData_stable _ y _ v4 (by rw [← v3]; exact noQuotes_drop hq _) hsw
+      rw [v3]; exact specData_stable _ y _ v4 (by rw [← v3]; exact qll_strOK hq (SepBefore.append hsep' y)) hsw
     rw [e0, ed]
     cases hd : specData (w.drop (off + wsLen (w.drop off))) with
     | swallow => exact absurd hd hsw
@@ -449,7 +460,12 @@ theorem specList_stable (w y : Bytes) (J : Nat) (hJ : NLat w J) (hq : NoQuotes (
         have := head_some_lt hc
         have hm := specList_mono fuel w (off + wsLen (w.drop off) + n + wsLen (w.drop (off + wsLen (w.drop off) + n)) + 1)
           (cnt + 1) (by omega)
-        exact ih _ _ (by omega) hend
+        have h44 : w[off + wsLen (w.drop off) + n + wsLen (w.drop (off + wsLen (w.drop off) + n))]? = some 44 := by
+          have : (w.drop (off + wsLen (w.drop off) + n + wsLen (w.drop (off + wsLen (w.drop off) + n)))).head? = some 44 := by
+            simpa using hc
+          rw [List.head?_drop] at this
+          exact this
+        exact ih _ _ (by omega) (SepBefore.of_get h44 (by decide)) hend
       · rfl
 
 /-! ## the message unit -/
@@ -618,7 +634,7 @@ theorem unit_P2_le (w : Bytes) (J : Nat) (hend : (specUnit w).consumed ≤ J + 1
 
 /-- header, blanks and data list of a unit whose terminator starts at or before a line terminator of `w`
 are the same when more bytes follow -/
-theorem unit_parts_stable (w y : Bytes) (J : Nat) (hJ : NLat w J) (hq : NoQuotes (w ++ y)) (hP2 : (uData w).1 ≤ J) :
+theorem unit_parts_stable (w y : Bytes) (J : Nat) (hJ : NLat w J) (hq : QuotesLineLocal (w ++ y)) (hP2 : (uData w).1 ≤ J) :
     wsLen (w ++ y) = wsLen w ∧ uHdr (w ++ y) = uHdr w ∧ uP1 (w ++ y) = uP1 w ∧ uW1 (w ++ y) = uW1 w ∧
     uData (w ++ y) = uData w ∧
     (uW1 w > 0 → specList ((w ++ y).length + 1) (w ++ y) (uP1 w + uW1 w) 0 = specList (w.length + 1) w (uP1 w + uW1 w) 0) := by
@@ -642,7 +658,15 @@ theorem unit_parts_stable (w y : Bytes) (J : Nat) (hJ : NLat w J) (hq : NoQuotes
     have hE : endpos (specList (w.length + 1) w (uP1 w + uW1 w) 0) = (uData w).1 := by
       unfold uData; rw [if_pos hw]
       cases specList (w.length + 1) w (uP1 w + uW1 w) 0 <;> rfl
-    rw [specList_stable w y J hJ hq _ _ 0 (by omega) (by rw [hf, hE]; exact hP2), hf]
+    have hsep : SepBefore w (uP1 w + uW1 w) := by
+      obtain ⟨b, hb, hs⟩ := wsLen_last (s := w.drop (uP1 w)) hw
+      rw [List.getElem?_drop] at hb
+      have := SepBefore.of_get hb hs
+      unfold uW1
+      rwa [show uP1 w + (wsLen (w.drop (uP1 w)) - 1) + 1 = uP1 w + wsLen (w.drop (uP1 w)) by
+        have : 0 < wsLen (w.drop (uP1 w)) := hw
+        omega] at this
+    rw [specList_stable w y J hJ hq _ _ 0 (by omega) hsep (by rw [hf, hE]; exact hP2), hf]
   have eD : uData (w ++ y) = uData w := by
     unfold uData
     rw [eW, eP]
@@ -655,7 +679,7 @@ theorem unit_parts_stable (w y : Bytes) (J : Nat) (hJ : NLat w J) (hq : NoQuotes
 /-- a unit that ends — in a terminator or at a byte that cannot continue it — at or before a line
 terminator of `w` is the same unit when more bytes follow, unless its terminator is a CR at the very end of
 `w` and the next byte is a line feed -/
-theorem specUnit_stable (w y : Bytes) (J : Nat) (hJ : NLat w J) (hq : NoQuotes (w ++ y))
+theorem specUnit_stable (w y : Bytes) (J : Nat) (hJ : NLat w J) (hq : QuotesLineLocal (w ++ y))
     (hx : w.drop (uData w).1 ≠ [13] ∨ y.head? ≠ some 10)
     (hend : (specUnit w).consumed ≤ J + 1)
     (hterm : (specUnit w).term ≠ .none ∨ (specUnit w).wellFormed = false) : specUnit (w ++ y) = specUnit w := by
@@ -676,7 +700,7 @@ theorem specUnit_stable (w y : Bytes) (J : Nat) (hJ : NLat w J) (hq : NoQuotes (
 
 /-- the exception: a unit terminated by a CR at the very end of `w`, followed by a line feed — the terminator
 becomes CR LF, nothing else changes -/
-theorem specUnit_crlf (w y : Bytes) (hq : NoQuotes (w ++ 10 :: y)) (hr : w.drop (uData w).1 = [13]) :
+theorem specUnit_crlf (w y : Bytes) (hq : QuotesLineLocal (w ++ 10 :: y)) (hr : w.drop (uData w).1 = [13]) :
     specUnit (w ++ 10 :: y) = { specUnit w with consumed := (specUnit w).consumed + 1 } ∧
     (specUnit w).term = .nl ∧ (specUnit w).consumed = w.length ∧ (uData w).1 + 1 = w.length := by
   have hlen : (uData w).1 + 1 = w.length := by
@@ -935,7 +959,7 @@ theorem unit_nl_end (w : Bytes) (ht : (specUnit w).term = .nl) (hc : (specUnit w
     · cases ht
     · split at ht <;> cases ht
 
-theorem scanFrom_stable (s y : Bytes) (hq : NoQuotes (s ++ y)) (k : Nat)
+theorem scanFrom_stable (s y : Bytes) (hq : QuotesLineLocal (s ++ y)) (k : Nat)
     (hx : k < s.length ∨ s.getLast? ≠ some 13 ∨ y.head? ≠ some 10) (hk : 0 < k)
     (hJ : NLat s (k - 1)) : ∀ (fuel tot f : Nat), scanFrom fuel s tot = some (k, f) →
     scanFrom fuel (s ++ y) tot = some (k, f) := by
@@ -948,7 +972,7 @@ theorem scanFrom_stable (s y : Bytes) (hq : NoQuotes (s ++ y)) (k : Nat)
     obtain ⟨g1, g2, _, _⟩ := scanFrom_some _ _ _ _ _ h
     rw [scanFrom_succ] at h ⊢
     obtain ⟨v1, v2⟩ := drop_view s y (k - 1) tot hJ (by omega)
-    have hq' : NoQuotes (s.drop tot ++ y) := by rw [← v1]; exact noQuotes_drop hq _
+    have hq' : QuotesLineLocal (s.drop tot ++ y) := by rw [← v1]; exact qll_drop hq _
     obtain ⟨a1, a2, a3, _⟩ := Props.C13.unit_spec (s.drop tot)
     have hstab : (specUnit (s.drop tot)).consumed ≤ k - 1 - tot + 1 →
         ((s.drop tot).drop (uData (s.drop tot)).1 ≠ [13] ∨ y.head? ≠ some 10) →
@@ -1009,7 +1033,7 @@ theorem scanFrom_stable (s y : Bytes) (hq : NoQuotes (s ++ y)) (k : Nat)
 
 /-- the exception: the message found is all of `s`, it ends in CR, and a line feed follows: the message
 found in `s ++ LF ++ y` is one byte longer -/
-theorem scanFrom_crlf (s y : Bytes) (hq : NoQuotes (s ++ 10 :: y)) (h13 : s.getLast? = some 13) :
+theorem scanFrom_crlf (s y : Bytes) (hq : QuotesLineLocal (s ++ 10 :: y)) (h13 : s.getLast? = some 13) :
     ∀ (fuel tot f : Nat), scanFrom fuel s tot = some (s.length, f) →
     scanFrom fuel (s ++ 10 :: y) tot = some (s.length + 1, f) := by
   have hne : s ≠ [] := by intro h0; subst h0; simp at h13
@@ -1026,7 +1050,7 @@ theorem scanFrom_crlf (s y : Bytes) (hq : NoQuotes (s ++ 10 :: y)) (h13 : s.getL
     obtain ⟨g1, g2, _, _⟩ := scanFrom_some _ _ _ _ _ h
     rw [scanFrom_succ] at h ⊢
     obtain ⟨v1, v2⟩ := drop_view s (10 :: y) (s.length - 1) tot hJ (by omega)
-    have hq' : NoQuotes (s.drop tot ++ 10 :: y) := by rw [← v1]; exact noQuotes_drop hq _
+    have hq' : QuotesLineLocal (s.drop tot ++ 10 :: y) := by rw [← v1]; exact qll_drop hq _
     obtain ⟨a1, a2, a3, _⟩ := Props.C13.unit_spec (s.drop tot)
     obtain ⟨b1, _⟩ := Props.C13.unit_spec (s.drop tot ++ 10 :: y)
     rw [v1]
@@ -1098,7 +1122,7 @@ theorem scan_last {s : Bytes} {k : Nat} (hs : scan s = some k) :
 
 /-- prefix stability of the scan: the message found in `s` is found in `s ++ y`, unless `s` ends in a CR
 (which a following LF would extend) -/
-theorem scan_stable (s y : Bytes) (k : Nat) (hq : NoQuotes (s ++ y)) (hlast : s.getLast? ≠ some 13)
+theorem scan_stable (s y : Bytes) (k : Nat) (hq : QuotesLineLocal (s ++ y)) (hlast : s.getLast? ≠ some 13)
     (hs : scan s = some k) : scan (s ++ y) = some k := by
   obtain ⟨f, hf⟩ := scan_exists ((s ++ y).length + 1) (by rw [List.length_append]; omega) hs
   obtain ⟨h1, h2⟩ := scanFrom_nl s _ _ _ _ hf
@@ -1122,6 +1146,17 @@ theorem good_cr : Good MsgNL NoQuotes NoCRLast where
     | none => exact absurd (List.getLast?_eq_none_iff.1 hh) hx
     | some b => rw [hh] at h; simpa using h
   msg := fun s k h hs => ⟨scan_last hs, fun b hb => h b (List.mem_of_mem_take hb)⟩
+  stable := fun s y k h h1 hs => scan_stable s y k (noQuotes_qll h) h1 hs
+
+/-- messages ending in LF or CR -/
+def MsgEnd (m : Bytes) : Prop := m.getLast? = some 10 ∨ m.getLast? = some 13
+
+/-- streams in which no quoted string contains a line terminator, cut anywhere but directly after a CR -/
+theorem good_quotes : Good MsgEnd QuotesLineLocal NoCRLast where
+  drop := fun _ k h => qll_drop h k
+  drop1 := good_cr.drop1
+  app1 := good_cr.app1
+  msg := fun _ _ _ hs => scan_last hs
   stable := fun s y k h h1 hs => scan_stable s y k h h1 hs
 
 /-- neither quote characters nor CR -/
@@ -1143,6 +1178,6 @@ theorem good_clean : Good MsgLF Clean (fun _ => True) where
     rcases scan_last hs with h1 | h1
     · exact h1
     · exact absurd rfl (h.2 13 (List.mem_of_mem_take (List.mem_of_getLast? h1)))
-  stable := fun s y k h _ hs => scan_stable s y k h.1 (noCR_last (noCR_left h.2)) hs
+  stable := fun s y k h _ hs => scan_stable s y k (noQuotes_qll h.1) (noCR_last (noCR_left h.2)) hs
 
 end ScpiVerif.Lemmas.Chunking
